@@ -1561,6 +1561,97 @@ func v17SwapDuringWait(name string, n int, interval time.Duration, epoch uint64,
 	return sc.result()
 }
 
+// ------------------------------------------------------------------------------------------ the hook after the dial
+// props/C17.py compiles the CURRENT session_manager.go through the overlay with one call of this hook in the
+// watcher, right after the sm.Unlock() that follows a successful newClientSession (stored = whether
+// pool.session.Store(session) stands before that Unlock).  nil except in the scenario below.
+var vhookC17AfterDialUnlock func(sm *SessionManager, id int, pool *streamPool, stored bool)
+var vhookC17Mu sync.Mutex
+
+// Regression scenario for the order "Store after sm.Unlock()": the pool's session is lost, the watcher dials
+// and releases the lock; at that very point the hot-restart handler for the same id runs (the event is handed
+// to the manager as the posted lambda of handleHotRestart does) and swaps sm.pools[id]; then the watcher goes
+// on.  The replacement must not end up in the pool that was just parked.
+func v17StoreRace(name string, interval time.Duration, epoch uint64) v17Case {
+	vhookC17Mu.Lock() // one user of the hook at a time
+	defer vhookC17Mu.Unlock()
+	sc, err := v17NewScn(name, 1, interval)
+	if err != nil {
+		return v17Case{ID: name, N: 1, Oracle: []string{"C17:harness-setup | " + err.Error()}, SkipModel: true}
+	}
+	sc.feat["session-killed"], sc.feat["hot-restart"], sc.feat["handler-right-after-the-dial"] = true, true, true
+	sc.startSampler()
+	sc.probe(0, true)
+	sc.sm.RLock()
+	oldSess := sc.sm.pools[0].Session()
+	sc.sm.RUnlock()
+	var ran, swappedInHook, storedFlag int32
+	vhookC17AfterDialUnlock = func(sm *SessionManager, id int, pool *streamPool, stored bool) {
+		if sm != sc.sm || !atomic.CompareAndSwapInt32(&ran, 0, 1) {
+			return
+		}
+		if stored {
+			atomic.StoreInt32(&storedFlag, 1)
+		}
+		// what is visible now (a session already stored shows up as rebuilt BEFORE the swap), then the dial
+		sc.mu.Lock()
+		sc.observe()
+		if !stored {
+			sc.hist = append(sc.hist, v17Ev{K: "dial", I: id, T: sc.ms()})
+		}
+		sc.mu.Unlock()
+		sm.handleEvent(typeHotRestart, &sessionManagerHotRestartParams{epoch: epoch, session: oldSess})
+		sm.RLock()
+		if sm.pools[id] != pool {
+			atomic.StoreInt32(&swappedInHook, 1)
+		}
+		sm.RUnlock()
+	}
+	defer func() { vhookC17AfterDialUnlock = nil }()
+	base := v17RawAccepts(sc.lis)
+	if !sc.killServerSession(sc.lis, 0) {
+		sc.fail("C17:harness-setup", "client end did not notice the kill within 4 s")
+	}
+	dl := time.Now().Add(interval + 4*time.Second)
+	for time.Now().Before(dl) && atomic.LoadInt32(&ran) == 0 {
+		time.Sleep(5 * time.Millisecond)
+	}
+	time.Sleep(300 * time.Millisecond)
+	sc.waitFor(hotRestartCheckTimeout+time.Second, func(o *v17Obs) bool { return o.State != int64(hotRestartState) })
+	time.Sleep(100 * time.Millisecond)
+	vhookC17AfterDialUnlock = nil
+	if atomic.LoadInt32(&ran) == 0 {
+		c := sc.result()
+		sc.closeManager()
+		sc.cleanup()
+		c.SkipModel = true
+		c.Notes["hook"] = "the hook compiled into the watcher never ran"
+		return c
+	}
+	o := sc.peek()
+	sc.setStat("hook_ran", 1)
+	sc.setStat("store_before_unlock", int64(atomic.LoadInt32(&storedFlag)))
+	sc.setStat("swapped_in_hook", int64(atomic.LoadInt32(&swappedInHook)))
+	sc.setStat("accepts_after_loss", v17RawAccepts(sc.lis)-base)
+	sc.setStat("live_server_sessions", int64(v17LiveSessions(sc.lis)))
+	sc.mu.Lock()
+	badStores := sc.stats["rebuilt_into_unreferenced_pool"]
+	sc.mu.Unlock()
+	if atomic.LoadInt32(&swappedInHook) == 1 && badStores > 0 {
+		parkedLive := o.Pools[0] != 0 && o.Objs[0][1] == 1
+		sc.fail("C17:swapped-pool-rebuilt-a-second-time",
+			fmt.Sprintf("the watcher of pool 0 dialled a replacement and released sm's lock; the hot-restart handler for that pool ran at that point and swapped sm.pools[0]; the watcher then stored its replacement into the pool that had just been parked (parked pool holds a live session: %v; live sessions on the server for one pool: %d)",
+				parkedLive, v17LiveSessions(sc.lis)))
+	}
+	if !sc.probe(0, true) {
+		sc.fail("C17:getstream-fails-after-hot-restart", "pool 0")
+	}
+	d := sc.closeManager()
+	sc.setStat("close_ms", int64(d/time.Millisecond))
+	sc.cleanup()
+	return sc.result()
+}
+
 // Close while a watcher waits for its rebuild timer
 func v17CloseDuringWait(name string, n int, interval time.Duration) v17Case {
 	sc, err := v17NewScn(name, n, interval)
@@ -1673,6 +1764,7 @@ func TestVerif_C17(t *testing.T) {
 			func() v17Case {
 				return v17SwapDuringWait(tag("swapwait_real_file"), 3, 350*time.Millisecond, ep+34, MemMapTypeDevShmFile, false)
 			},
+			func() v17Case { return v17StoreRace(tag("storerace"), 150*time.Millisecond, ep+41) },
 		}
 		res := make([]v17Case, len(jobs))
 		var wg sync.WaitGroup
